@@ -4,7 +4,7 @@ COMMON_NOTE = ("Trusted: Lean 4.33.0 kernel; axioms propext, Classical.choice, Q
 
 # suite: harness -suite name, Lean driver name (Main.lean argument, module CantoVerif.Driver.<Capitalised>), op counts, accept floor (%)
 SUITES = {
-    "csr": dict(quick_ops=6000, thorough_ops=40000, driver="csr", accept_floor=30),
+    "csr": dict(quick_ops=9000, thorough_ops=40000, driver="csr", accept_floor=30),
 }
 
 _CSR_ASSUME = [
